@@ -1,11 +1,23 @@
 /*
  * C13 driver: pointer heap and timer queue against models held here.
  *
- *  H <seed> <nops> <keymode> <ncreate> <cb>
+ *  H <seed> <nops> <keymode> <ncreate> <cb> [<ck> [<tiny>]]
  *      heap history.  keymode 0: keys 0..3, 1: 0..15, 2: 0..999, 3: any
  *      int64.  ncreate >= 0: ptrheap_create from that many elements;
  *      ncreate < 0: ptrheap_init.  cb 1: record-cookie callback given (all
  *      operations), cb 0: none (add/getmin/deletemin/increasemin only).
+ *      ck 1 (default): the user cookie handed to ptrheap_init/create is a
+ *      non-NULL pointer, ck 0: it is NULL (legal: the callbacks here store
+ *      the position inside the element, as timerqueue.c's own callback
+ *      does, and never dereference the cookie); either way both callbacks
+ *      must receive exactly the cookie given at construction.  tiny 1: the
+ *      heap is kept at 0..4 elements, so that the history is made of
+ *      handle operations on the only element, deletions of the last slot,
+ *      deletemin down to the empty heap, getmin on the empty heap and
+ *      refills.  (ptrheap_deletemin on an EMPTY heap is excluded by the
+ *      documentation - "The heap must not be empty" - and never called.)
+ *      The array given to ptrheap_create is overwritten with junk and freed
+ *      as soon as ptrheap_create returns: the heap must hold its own copy.
  *  T <seed> <nops> <tmode> <prefill>
  *      timer queue history.  tmode 0: all times equal, 1: equal seconds and
  *      differing microseconds, 2: few seconds x {0, 999999} us, 3: wide,
@@ -82,6 +94,7 @@ static struct hctx {
 	uint64_t stamp;
 	uint64_t n_cb, n_cmp;
 	int cb;
+	void * cookie;		/* the user cookie given at construction */
 	int badcookie, badptr;
 } hc;
 
@@ -100,7 +113,7 @@ h_compar(void * cookie, const void * x, const void * y)
 	const struct elem * ex = x, * ey = y;
 	int mag;
 
-	if (cookie != &hc)
+	if (cookie != hc.cookie)
 		hc.badcookie = 1;
 	if (!is_elem(x) || !is_elem(y)) {
 		hc.badptr = 1;
@@ -119,7 +132,7 @@ static void
 h_setrc(void * cookie, void * ptr, size_t rc)
 {
 
-	if (cookie != &hc)
+	if (cookie != hc.cookie)
 		hc.badcookie = 1;
 	if (!is_elem(ptr)) {
 		hc.badptr = 1;
@@ -280,12 +293,14 @@ heap_check(void)
 }
 
 static void
-hist_heap(uint64_t seed, size_t nops, int mode, int64_t ncreate, int cb)
+hist_heap(uint64_t seed, size_t nops, int mode, int64_t ncreate, int cb,
+    int ck, int tiny)
 {
 	struct vh_rng R;
 	uint64_t sig = 0, c_add = 0, c_delmin = 0, c_dellast = 0, c_up = 0,
 	    c_down = 0, c_stay = 0, c_inc = 0, c_dec = 0, c_incmin = 0,
-	    c_drain = 0, c_ties = 0;
+	    c_drain = 0, c_ties = 0, c_single = 0, c_single_del = 0,
+	    c_to_empty = 0, c_empty_getmin = 0, c_refill = 0, c_scribbled = 0;
 	size_t live0 = wa_live_count(), maxn = 0, i;
 	void ** ptrs = NULL;
 	unsigned padd = 50, phase_left = 0;
@@ -294,6 +309,7 @@ hist_heap(uint64_t seed, size_t nops, int mode, int64_t ncreate, int cb)
 	vh_seed(&R, seed, 21);
 	memset(&hc, 0, sizeof(hc));
 	hc.cb = cb;
+	hc.cookie = ck ? (void *)&hc : NULL;
 	hc.ecap = (size_t)(ncreate > 0 ? ncreate : 0) + nops + 1;
 	hc.e = vh_xmalloc(hc.ecap * sizeof(struct elem));
 	hc.livelist = vh_xmalloc(hc.ecap * sizeof(size_t));
@@ -305,11 +321,23 @@ hist_heap(uint64_t seed, size_t nops, int mode, int64_t ncreate, int cb)
 		for (i = 0; i < N; i++)
 			ptrs[i] = model_new(newkey(&R, mode));
 		snprintf(opdesc, sizeof(opdesc), "create(%zu)", N);
-		hc.H = ptrheap_create(h_compar, cb ? h_setrc : NULL, &hc, N,
-		    N ? ptrs : NULL);
+		hc.H = ptrheap_create(h_compar, cb ? h_setrc : NULL, hc.cookie,
+		    N, N ? ptrs : NULL);
+		/*
+		 * The caller's array is the caller's: it is overwritten and
+		 * freed at once (ASan reports any later access by the heap).
+		 */
+		if (N) {
+			for (i = 0; i < N; i++)
+				ptrs[i] = (i & 1) ? NULL :
+				    (void *)(uintptr_t)(0xA5A5A5A5u + 8 * i);
+			c_scribbled = N;
+		}
+		vh_free(ptrs);
+		ptrs = NULL;
 	} else {
 		snprintf(opdesc, sizeof(opdesc), "init");
-		hc.H = ptrheap_init(h_compar, cb ? h_setrc : NULL, &hc);
+		hc.H = ptrheap_init(h_compar, cb ? h_setrc : NULL, hc.cookie);
 	}
 	if (hc.H == NULL) {
 		fail("heap-init", "NULL");
@@ -323,15 +351,28 @@ hist_heap(uint64_t seed, size_t nops, int mode, int64_t ncreate, int cb)
 
 		if (phase_left == 0) {
 			static const unsigned pa[] = { 10, 30, 45, 50, 55, 70, 90 };
+			static const unsigned pa_tiny[] = { 30, 50, 70, 90, 100 };
 
-			padd = pa[vh_below(&R, 7)];
+			padd = tiny ? pa_tiny[vh_below(&R, 5)] : pa[vh_below(&R, 7)];
 			phase_left = (unsigned)vh_range(&R, 5, 100);
 		}
 		phase_left--;
 		if (n > maxn)
 			maxn = n;
+		if (n == 0) {
+			/* getmin on the empty heap, then refill */
+			if (ptrheap_getmin(hc.H) != NULL) {
+				snprintf(opdesc, sizeof(opdesc), "getmin n=0");
+				fail("heap-min", "getmin non-NULL on an empty heap");
+				break;
+			}
+			c_empty_getmin++;
+			if (opidx > 1)
+				c_refill++;
+		}
 		op = (unsigned)vh_below(&R, 100);
-		if (n == 0 || (op < 50 && vh_below(&R, 100) < padd)) {
+		if (n == 0 || (op < 50 && vh_below(&R, 100) < padd &&
+		    !(tiny && n >= 4))) {
 			e = model_new(newkey(&R, mode));
 			snprintf(opdesc, sizeof(opdesc), "add(key %lld) n=%zu",
 			    (long long)e->key, n);
@@ -358,6 +399,8 @@ hist_heap(uint64_t seed, size_t nops, int mode, int64_t ncreate, int cb)
 				ptrheap_deletemin(hc.H);
 				model_del(e);
 				c_delmin++;
+				if (n == 1)
+					c_to_empty++;
 			} else {
 				e->key = movekey(&R, mode, e->key, 1);
 				snprintf(opdesc, sizeof(opdesc), "increasemin(to %lld) n=%zu",
@@ -374,6 +417,8 @@ hist_heap(uint64_t seed, size_t nops, int mode, int64_t ncreate, int cb)
 			case 2: e = ptrheap_verif_peek(hc.H, n / 2); break;
 			default: e = &hc.e[hc.livelist[vh_below(&R, n)]]; break;
 			}
+			if (n == 1)
+				c_single++;
 			if (op < 72) {
 				size_t p = e->pos;
 				struct elem * last = ptrheap_verif_peek(hc.H, n - 1);
@@ -383,6 +428,10 @@ hist_heap(uint64_t seed, size_t nops, int mode, int64_t ncreate, int cb)
 				sig = vh_fnv_u64(sig, (4ULL << 56) ^ p);
 				ptrheap_delete(hc.H, p);
 				model_del(e);
+				if (n == 1) {
+					c_single_del++;
+					c_to_empty++;
+				}
 				if (p == n - 1)
 					c_dellast++;
 				else if (last->pos < p)
@@ -433,6 +482,8 @@ hist_heap(uint64_t seed, size_t nops, int mode, int64_t ncreate, int cb)
 			ptrheap_deletemin(hc.H);
 			model_del(e);
 			c_drain++;
+			if (hc.nlive == 0)
+				c_to_empty++;
 			heap_check();
 		}
 	}
@@ -453,9 +504,14 @@ out:
 	    "heap_delete_last=%llu heap_delete_sift_up=%llu heap_delete_sift_down=%llu "
 	    "heap_delete_stay=%llu heap_increase=%llu heap_decrease=%llu "
 	    "heap_increasemin=%llu heap_drained=%llu heap_drain_ties=%llu "
-	    "heap_created=%lld heap_callbacks=%llu heap_compares=%llu heap_maxsize=%zu\n",
+	    "heap_created=%lld heap_callbacks=%llu heap_compares=%llu heap_maxsize=%zu "
+	    "heap_hist_%s_%s_%s=1 heap_hist_tiny=%d "
+	    "heap_single_element_handle_ops=%llu heap_single_element_deleted_by_handle=%llu "
+	    "heap_became_empty=%llu heap_empty_getmin_null=%llu heap_refilled_after_empty=%llu "
+	    "heap_create_array_elems_scribbled_and_freed=%llu\n",
 	    (unsigned long long)(sig ^ (uint64_t)ncreate ^ ((uint64_t)mode << 40) ^
-	    ((uint64_t)cb << 44)),
+	    ((uint64_t)cb << 44) ^ ((uint64_t)ck << 45) ^ ((uint64_t)tiny << 46)),
+	    tiny ? (c_to_empty >= 1 && c_refill >= 1 && (!cb || c_single >= 1)) :
 	    cb ? (c_up >= 1 && c_down >= 1) : (c_delmin + c_drain >= 10), nops,
 	    (unsigned long long)c_add, (unsigned long long)c_delmin,
 	    (unsigned long long)c_dellast, (unsigned long long)c_up,
@@ -463,7 +519,12 @@ out:
 	    (unsigned long long)c_inc, (unsigned long long)c_dec,
 	    (unsigned long long)c_incmin, (unsigned long long)c_drain,
 	    (unsigned long long)c_ties, (long long)(ncreate > 0 ? ncreate : 0),
-	    (unsigned long long)hc.n_cb, (unsigned long long)hc.n_cmp, maxn);
+	    (unsigned long long)hc.n_cb, (unsigned long long)hc.n_cmp, maxn,
+	    cb ? "callback" : "nocallback", ck ? "cookie" : "nullcookie",
+	    ncreate >= 0 ? "create" : "init", tiny,
+	    (unsigned long long)c_single, (unsigned long long)c_single_del,
+	    (unsigned long long)c_to_empty, (unsigned long long)c_empty_getmin,
+	    (unsigned long long)c_refill, (unsigned long long)c_scribbled);
 }
 
 /* ================================================================== */
@@ -865,7 +926,9 @@ main(void)
 		opidx = 0;
 		if (op[0] == 'H')
 			hist_heap(vh_tok_u(&L, 1), (size_t)vh_tok_u(&L, 2),
-			    (int)vh_tok_i(&L, 3), vh_tok_i(&L, 4), (int)vh_tok_i(&L, 5));
+			    (int)vh_tok_i(&L, 3), vh_tok_i(&L, 4), (int)vh_tok_i(&L, 5),
+			    L.ntok > 6 ? (int)vh_tok_i(&L, 6) : 1,
+			    L.ntok > 7 ? (int)vh_tok_i(&L, 7) : 0);
 		else if (op[0] == 'T')
 			hist_timer(vh_tok_u(&L, 1), (size_t)vh_tok_u(&L, 2),
 			    (int)vh_tok_i(&L, 3), (size_t)vh_tok_u(&L, 4));
